@@ -18,6 +18,17 @@ import (
 	"time"
 )
 
+var slowMS, _ = strconv.Atoi(os.Getenv("VERIF_SLOW"))
+
+func clip(s string, n int) string {
+	if len(s) > n {
+		return s[:n] + "..."
+	}
+	return s
+}
+
+var dumpSeq int
+
 type Res int
 
 const (
@@ -48,7 +59,9 @@ type Solver struct {
 	declared map[string]bool
 	stats    *Stats
 	log      io.Writer
-	timeout  int // ms, incremental
+	timeout  int // ms, stage 2 (race) time limit
+	quick    int // ms, stage 1 (persistent z3) time limit
+	lastWho  string
 	dead     bool
 }
 
@@ -67,7 +80,7 @@ type Stats struct {
 }
 
 func NewSolver(st *Stats) *Solver {
-	s := &Solver{stats: st, timeout: 10000}
+	s := &Solver{stats: st, timeout: 60000, quick: 400}
 	s.start()
 	return s
 }
@@ -186,7 +199,15 @@ func (s *Solver) align(pc []*Term) {
 	}
 }
 
-// Check decides satisfiability of pc ∧ extra with the incremental process.
+// Check decides satisfiability of pc ∧ extra.
+//
+// Stage 1: the worker's persistent z3, (reset) + full formula, short time limit - answers the
+// many easy (mostly satisfiable) feasibility queries in milliseconds. The old z3's push/pop
+// mode is avoided: it switches to a much slower core for this bit-vector/UF mix.
+// Stage 2 (stage 1 said unknown): a race between a fresh z3 and cvc5 with integer blasting
+// (--solve-bv-as-int=sum, which keeps mod-2^k semantics); measured on the sector arithmetic of
+// this code base cvc5-int proves in 0.05-1.5 s what bit-blasting needs 3-60 s for, while z3 is
+// the faster one on satisfiable instances. First definite answer wins.
 func (s *Solver) Check(pc []*Term, extra *Term, wantModel bool) (Res, *Model) {
 	if s.dead {
 		s.Close()
@@ -194,12 +215,10 @@ func (s *Solver) Check(pc []*Term, extra *Term, wantModel bool) (Res, *Model) {
 		s.start()
 	}
 	t0 := time.Now()
-	s.align(pc)
-	s.send("(push 1)\n")
-	lv := level{term: extra}
-	s.emitDefs([]*Term{extra}, &lv)
-	s.stack = append(s.stack, lv)
-	s.send(fmt.Sprintf("(assert %s)\n(set-option :timeout %d)\n(check-sat)\n(echo \"DONE\")\n", extra.ref(), s.timeout))
+	q, all := fullQueryText(pc, extra, false)
+	s.send(fmt.Sprintf("(reset)\n(set-option :print-success false)\n(set-option :produce-models true)\n(set-option :timeout %d)\n", s.quick))
+	s.send(q)
+	s.send("(echo \"DONE\")\n")
 	lines := s.readUntilMarker()
 	res := Unknown
 	for _, l := range lines {
@@ -214,18 +233,202 @@ func (s *Solver) Check(pc []*Term, extra *Term, wantModel bool) (Res, *Model) {
 		}
 	}
 	var m *Model
+	who := "z3"
 	if res == Sat && wantModel {
 		m = s.getModel(append(append([]*Term{}, pc...), extra))
 	}
-	s.pop(1)
+	if res == Unknown {
+		res, m, who = raceOneShot(q, all, wantModel, time.Duration(s.timeout)*time.Millisecond)
+	}
+	s.lastWho = who
 	d := time.Since(t0)
+	if slowMS > 0 && d > time.Duration(slowMS)*time.Millisecond {
+		fmt.Fprintf(os.Stderr, "[slow] %.2fs res=%v by %s |pc|=%d extra=%s\n", d.Seconds(), res, who, len(pc), clip(extra.String(), 300))
+		if dir := os.Getenv("VERIF_DUMP"); dir != "" {
+			dumpSeq++
+			os.WriteFile(fmt.Sprintf("%s/q%d_%d_%s.smt2", dir, os.Getpid(), dumpSeq, res), []byte(q), 0o644)
+		}
+	}
 	s.stats.mu.Lock()
 	s.stats.SolverTime += d
 	if d > s.stats.MaxQuery {
 		s.stats.MaxQuery = d
 	}
+	if s.stats.SolversUsed == nil {
+		s.stats.SolversUsed = map[string]int{}
+	}
+	if res != Unknown {
+		s.stats.SolversUsed[who]++
+	}
 	s.stats.mu.Unlock()
 	return res, m
+}
+
+// modelCommands returns get-value commands for every variable and UF application of the query.
+func modelCommands(all []*Term) string {
+	var sb strings.Builder
+	var names []string
+	for _, t := range all {
+		if t.op == OpVar {
+			names = append(names, smtName(t.name))
+		}
+	}
+	if len(names) > 0 {
+		sb.WriteString("(echo \"VARS\")\n(get-value (" + strings.Join(names, " ") + "))\n")
+	}
+	for _, a := range all {
+		if a.op != OpApply {
+			continue
+		}
+		var q []string
+		for _, x := range a.args {
+			q = append(q, x.ref())
+		}
+		q = append(q, a.ref())
+		sb.WriteString("(echo \"APP " + a.name + "\")\n(get-value (" + strings.Join(q, " ") + "))\n")
+	}
+	return sb.String()
+}
+
+func parseOneShotModel(out string) *Model {
+	m := &Model{vars: map[string]uint64{}, funcs: map[string]map[string]uint64{}}
+	sections := strings.Split(out, "\n")
+	cur := ""
+	var buf []string
+	flush := func() {
+		if cur == "" {
+			return
+		}
+		txt := strings.Join(buf, " ")
+		if cur == "VARS" {
+			parseValues(txt, func(name string, v uint64) { m.vars[name] = v })
+		} else if strings.HasPrefix(cur, "APP ") {
+			fn := strings.TrimPrefix(cur, "APP ")
+			var vals []uint64
+			parseValues(txt, func(name string, v uint64) { vals = append(vals, v) })
+			if len(vals) >= 2 {
+				var ks []string
+				for _, v := range vals[:len(vals)-1] {
+					ks = append(ks, strconv.FormatUint(v, 10))
+				}
+				if m.funcs[fn] == nil {
+					m.funcs[fn] = map[string]uint64{}
+				}
+				m.funcs[fn][strings.Join(ks, ",")] = vals[len(vals)-1]
+			}
+		}
+		buf = nil
+	}
+	for _, l := range sections {
+		l = strings.TrimSpace(l)
+		l = strings.Trim(l, "\"")
+		if l == "VARS" || strings.HasPrefix(l, "APP ") {
+			flush()
+			cur = l
+			continue
+		}
+		if cur != "" {
+			buf = append(buf, l)
+		}
+	}
+	flush()
+	return m
+}
+
+type raceAns struct {
+	r   Res
+	m   *Model
+	who string
+}
+
+// raceOneShot runs a fresh z3 and cvc5 (integer blasting) on the query; first definite answer wins.
+func raceOneShot(q string, all []*Term, wantModel bool, timeout time.Duration) (Res, *Model, string) {
+	text := q
+	if wantModel {
+		text += modelCommands(all)
+	}
+	members := []oneShot{
+		{"cvc5-int", []string{"--lang=smt2", "-q", "--solve-bv-as-int=sum", "--produce-models"}, "(set-logic ALL)\n"},
+		{"z3", []string{"-in"}, "(set-option :produce-models true)\n"},
+	}
+	ch := make(chan raceAns, len(members))
+	var cmds []*exec.Cmd
+	var mu sync.Mutex
+	for _, o := range members {
+		o := o
+		go func() {
+			bin := o.name
+			if strings.HasPrefix(bin, "cvc5") {
+				bin = "cvc5"
+			}
+			cmd := exec.Command(bin, o.args...)
+			cmd.Stdin = strings.NewReader(o.pre + text)
+			var out bytes.Buffer
+			cmd.Stdout = &out
+			cmd.Stderr = &out
+			mu.Lock()
+			cmds = append(cmds, cmd)
+			mu.Unlock()
+			if err := cmd.Start(); err != nil {
+				ch <- raceAns{Unknown, nil, o.name}
+				return
+			}
+			done := make(chan struct{})
+			go func() { cmd.Wait(); close(done) }()
+			select {
+			case <-done:
+			case <-time.After(timeout):
+				cmd.Process.Kill()
+				<-done
+				ch <- raceAns{Unknown, nil, o.name}
+				return
+			}
+			txt := out.String()
+			res := Unknown
+			for _, l := range strings.Split(txt, "\n") {
+				l = strings.TrimSpace(l)
+				if l == "sat" {
+					res = Sat
+					break
+				}
+				if l == "unsat" {
+					res = Unsat
+					break
+				}
+			}
+			if strings.Contains(txt, "(error") && res != Unsat {
+				// errors after an unsat answer come from get-value without a model; anything else is inconclusive
+				if !(res == Sat && !wantModel) {
+					if res == Sat && strings.Contains(txt, "VARS") {
+						// keep sat; model parsing below tolerates partial output
+					} else {
+						res = Unknown
+					}
+				}
+			}
+			var m *Model
+			if res == Sat && wantModel {
+				m = parseOneShotModel(txt)
+			}
+			ch <- raceAns{res, m, o.name}
+		}()
+	}
+	best := raceAns{Unknown, nil, ""}
+	for range members {
+		a := <-ch
+		if a.r != Unknown {
+			best = a
+			break
+		}
+	}
+	mu.Lock()
+	for _, c := range cmds {
+		if c.Process != nil {
+			c.Process.Kill()
+		}
+	}
+	mu.Unlock()
+	return best.r, best.m, best.who
 }
 
 func (s *Solver) getModel(roots []*Term) *Model {
